@@ -592,8 +592,10 @@ class Interp:
             if kind == "l":
                 out.append(r)
             elif kind == "t":
+                # "The result should be a two item list with the first item being the new field name" (reference);
+                # the implementation's own messages say "must": anything else fails
                 if r[0] != "l" or len(r[1]) != 2 or r[1][0][0] != "s":
-                    self.unspec("tuple-map callback not returning [name, value]")
+                    raise Fail("tuple-map callback not returning [name, value]")
                 out.append((r[1][0][1], r[1][1]))
             else:
                 if r[0] != "s":
